@@ -24,9 +24,22 @@ def sh(cmd, cwd=None, timeout=1500):
     import tempfile
     with tempfile.TemporaryFile('w+') as out:
         p = subprocess.Popen(cmd, cwd=cwd, stdout=out, stderr=subprocess.STDOUT, text=True, start_new_session=True)
-        try:
-            rc = p.wait(timeout)
-        except subprocess.TimeoutExpired:
+        import time as _t
+        t0 = _t.time()
+        rc = None
+        seen = None
+        while rc is None and _t.time() - t0 < timeout:
+            try:
+                rc = p.wait(5)
+            except subprocess.TimeoutExpired:
+                # pytest prints its summary and may then hang at exit on a forked test child: do not wait for that
+                out.flush()
+                out.seek(0)
+                if re.search(r'\d+ (passed|failed).* in [0-9.]+s', out.read()):
+                    seen = seen or _t.time()
+                    if _t.time() - seen > 20:
+                        rc = -8
+        if rc is None:
             rc = -9
         try:
             os.killpg(p.pid, signal.SIGKILL)
